@@ -13,7 +13,17 @@ def flatten(items):
     out = []
     for it in items:
         if isinstance(it, FStr):
-            out.extend(p for p in it.parts if not (isinstance(p, str) and p == ""))
+            for p in it.parts:
+                if isinstance(p, str):
+                    if p:
+                        out.append(p)
+                elif isinstance(p.value, FStr) and p.spec in ("", "s"):
+                    out.extend(flatten([p.value]))      # "%s" % <formatted text>: the inner text itself
+                elif isinstance(p.value, str) and p.spec in ("", "s"):
+                    if p.value:
+                        out.append(p.value)
+                else:
+                    out.append(p)
         elif isinstance(it, str):
             if it:
                 out.append(it)
